@@ -260,7 +260,8 @@ pub struct LinkCase {
 pub fn case_text(c: &Case) -> String {
     let ch = |v: &Vec<ChanSpec>| if v.is_empty() { "-".to_string() } else { v.iter().map(|c| format!("{}:{}:{}:{}:{}", c.id, c.ordered as u8, c.negotiated as u8,
         c.max_retransmits.map(|v| v.to_string()).unwrap_or("-".into()), c.max_lifetime.map(|v| v.to_string()).unwrap_or("-".into()))).collect::<Vec<_>>().join(";") };
-    let ms = if c.msgs.is_empty() { "-".to_string() } else { c.msgs.iter().map(|m| format!("{}{}:{}", if m.side == 0 { "A" } else { "B" }, m.chan, m.data.len())).collect::<Vec<_>>().join(";") };
+    let mt = |ph: u8| c.msgs.iter().filter(|m| m.phase == ph).map(|m| format!("{}{}:{}", if m.side == 0 { "A" } else { "B" }, m.chan, m.data.len())).collect::<Vec<_>>().join(";");
+    let ms = if c.msgs.is_empty() { "-".to_string() } else if c.msgs.iter().any(|m| m.phase == 1) { format!("{}|{}", mt(0), mt(1)) } else { mt(0) };
     let ep = |e: &EpCfg| format!("{}:{}:{}:{}:{}:{}:{}", e.rwnd, e.rto_initial_ms, e.max_burst, e.max_cwnd,
         e.seed_tsn.map(|v| v.to_string()).unwrap_or("-".into()), e.seed_tag.map(|v| v.to_string()).unwrap_or("-".into()), e.max_buffered);
     format!("link epA={} epB={} chA={} chB={} msgs={} faults={}", ep(&c.cfg[0]), ep(&c.cfg[1]), ch(&c.chans[0]), ch(&c.chans[1]), ms, faults_text(&c.faults))
@@ -293,10 +294,16 @@ pub fn parse_case(s: &str) -> Option<Case> {
             s.max_retransmits = f.get(3)?.parse().ok(); s.max_lifetime = f.get(4)?.parse().ok(); Some(s) }).collect()
     };
     let mut idx = std::collections::HashMap::new();
-    let msgs = if kv.get("msgs")? == "-" { vec![] } else { kv.get("msgs")?.split(';').filter_map(|m| {
-        let (a, len) = m.split_once(':')?; let side = if a.starts_with('A') { 0 } else { 1 }; let chan: u16 = a[1..].parse().ok()?;
-        let i = idx.entry((side, chan)).or_insert(0usize); let d = payload(side, chan, *i, len.parse().ok()?); *i += 1;
-        Some(Msg { side, chan, data: d }) }).collect() };
+    let mut msgs = vec![];
+    if kv.get("msgs")? != "-" {
+        for (ph, part) in kv.get("msgs")?.split('|').enumerate() {
+            for m in part.split(';').filter(|m| !m.is_empty()) {
+                let (a, len) = m.split_once(':')?; let side = if a.starts_with('A') { 0 } else { 1 }; let chan: u16 = a[1..].parse().ok()?;
+                let i = idx.entry((side, chan)).or_insert(0usize); let d = payload(side, chan, *i, len.parse().ok()?); *i += 1;
+                msgs.push(Msg { side, chan, data: d, phase: ph as u8 });
+            }
+        }
+    }
     Some(Case { cfg: [ep(kv.get("epA")?)?, ep(kv.get("epB")?)?], chans: [ch(kv.get("chA")?), ch(kv.get("chB")?)], msgs,
         faults: faults_parse(kv.get("faults")?), deadline: Duration::from_secs(12), settle: Duration::from_millis(60) })
 }
@@ -304,7 +311,11 @@ pub fn parse_case(s: &str) -> Option<Case> {
 fn mk_case(sizes: &[usize], faults: Vec<Fault>, tsn: Option<u32>) -> Case {
     let mut cfg = [EpCfg::default(), EpCfg::default()];
     cfg[0].seed_tsn = tsn; cfg[1].seed_tsn = tsn.map(|t| t ^ 0x5555);
-    let msgs = sizes.iter().enumerate().map(|(i, l)| Msg { side: 0, chan: 1, data: payload(0, 1, i, *l) }).collect();
+    // the last message of a multi-message workload is submitted in phase 1: after the fault script is
+    // exhausted and the link has gone quiet ("whenever the network subsequently delivers reliably")
+    let n = sizes.len();
+    let msgs = sizes.iter().enumerate().map(|(i, l)| Msg { side: 0, chan: 1, data: payload(0, 1, i, *l),
+        phase: if n > 1 && i == n - 1 { 1 } else { 0 } }).collect();
     Case { cfg, chans: [vec![ChanSpec::reliable(1)], vec![ChanSpec::reliable(1)]], msgs, faults,
         deadline: Duration::from_secs(12), settle: Duration::from_millis(60) }
 }
